@@ -505,6 +505,9 @@ func (ps *sparser) primary() Expr {
 			return &EBool{false}
 		case "nil":
 			return &ENil{}
+		case "forall", "exists":
+			ps.p--
+			return ps.quant()
 		case "old":
 			ps.expectOp("(")
 			x := ps.expr()
